@@ -435,7 +435,7 @@ class _Gen:
             e = ["+", e, ["*", _cs(rng), at[i]]]
         return e
 
-    def site(self, prim, how="direct", batch=0, const_args=False):
+    def site(self, prim, how="direct", batch=0, const_args=False, layout=None):
         rng = self.rng
         lin = (lambda: _c(rng, -0.8, 0.8)) if const_args else self.lin
         v = self.fresh()
@@ -456,7 +456,7 @@ class _Gen:
             if batch:
                 # which parameter carries the batch: location only, scale only (a scalar location broadcast against
                 # a vector scale), or both
-                lay = int(rng.integers(3))
+                lay = int(rng.integers(3)) if layout is None else int(layout)
                 loc = ["vec"] + [lin() for _ in range(batch)] if lay != 1 else lin()
                 sc = ["vec"] + [["scale", lin()] for _ in range(batch)] if lay != 0 else ["scale", lin()]
                 args = [loc, sc]
@@ -649,7 +649,10 @@ def unit_program(prim, variant=0):
     elif variant == 2 and prim in BATCHABLE:
         g.add_site(prim, batch=2, how="mvmap")
     elif variant == 3 and prim in BATCHABLE:
-        g.add_site(prim, batch=3, how="direct")
+        g.add_site(prim, batch=3, how="direct", layout=0)
+    elif variant in (4, 5, 6) and prim in NORMAL_LAW:
+        # 4: scalar location against a vector scale; 5: both vectors; 6: scalar location / vector scale through modular_vmap
+        g.add_site(prim, batch=3 if variant != 6 else 2, how="mvmap" if variant == 6 else "direct", layout={4: 1, 5: 2, 6: 1}[variant])
     else:
         g.add_site(prim)
     return g.spec()
